@@ -9,6 +9,9 @@
     process histories; the SHA-256 of the text returned by `ffcx.compiler.compile_ufl_objects` (C and numba)
     must be identical.  Every difference is classified by WHAT differs (not by which form) and reported
     as a violation with a canonical key, e.g. `hashseed:section-inputs-comment-order`.
+    The five kinds found on the tree before the F9 fix commits (ARMED_KEYS) stay armed: a few extra workers run
+    with those fixes reverted by monkeypatch in the worker process only, and the search must report exactly
+    these five kinds on them (otherwise: correspondence broken -> the check fails).
 
 The worker lives in this file: `python -m harness.props.c12 --worker '<job json>'`.
 """
@@ -49,19 +52,15 @@ THEOREMS = [
     "Ffcx.C12.site_invariant_object_names",
     "Ffcx.C12.site_invariant_index_position",
     "Ffcx.C12.site_invariant_temp_symbols",
-    # order-leaking sites: counterexample + what does hold
-    "Ffcx.C12.site_fuse_inputs_counterexample",
-    "Ffcx.C12.site_fuse_inputs_partial",
-    "Ffcx.C12.site_fuse_outputs_counterexample",
-    "Ffcx.C12.site_fuse_outputs_partial",
-    "Ffcx.C12.site_block_inputs_counterexample",
-    "Ffcx.C12.site_block_inputs_partial",
-    "Ffcx.C12.site_table_numbering_counterexample",
-    "Ffcx.C12.site_table_numbering_partial",
-    "Ffcx.C12.site_jacobian_symbol_counterexample",
-    "Ffcx.C12.site_jacobian_symbol_partial",
-    "Ffcx.C12.site_geometry_tables_counterexample",
-    "Ffcx.C12.site_geometry_tables_partial",
+    # the sites repaired by the F9 fix commits: full invariance (they were counterexample/partial pairs before)
+    "Ffcx.C12.site_invariant_fuse_inputs",
+    "Ffcx.C12.site_invariant_fuse_outputs",
+    "Ffcx.C12.site_invariant_block_inputs",
+    "Ffcx.C12.site_invariant_table_numbering",
+    "Ffcx.C12.site_invariant_geometry_tables",
+    "Ffcx.C12.site_invariant_jacobian_symbol",
+    "Ffcx.C12.set_order_would_leak",
+    # sets of int-hashed keys (canonical by a CPython detail): counterexample + what does hold
     "Ffcx.C12.site_integral_domains_counterexample",
     "Ffcx.C12.site_integral_domains_partial",
     "Ffcx.C12.site_int_argkeys_counterexample",
@@ -71,6 +70,7 @@ THEOREMS = [
     "Ffcx.C12.no_written_module_state",
     # inventory
     "Ffcx.C12.inventory_complete",
+    "Ffcx.C12.inventory_no_stale",
     "Ffcx.C12.inventory_tags_consistent",
     "Ffcx.C12.modelled_sites_have_theorems",
 ]
@@ -87,11 +87,10 @@ QUICK_ENTRIES = [
     "int_facet_tri",          # interior facet, restricted coefficient, Jacobian section, many fw temporaries
     "prism",                  # exterior facets of two cell types -> two kernels for one integral
     "stokes_mixed",           # mixed element with sub-elements (element numbering)
-    "c12_mixed3_coefs",       # local: 3 sub-elements + coefficients on each (numbering ties)
+    "c12_mixed3_coefs",       # local: 4 sub-elements + coefficients on each (numbering ties)
     "laplace_coef_tri_p2",    # coefficient + constant
     "rhs_tri_p2",             # several coefficients
     "nonaffine_quad",         # non-affine geometry
-    "p2geom_tri",             # P2 geometry, cell + facet
     "geometry_tet",           # geometry tables (reference normals, facet area ...)
     "subdomains",             # several integrals / subdomain ids
     "expr_rank1",             # expression with argument, coefficient, constant
@@ -102,6 +101,17 @@ QUICK_ENTRIES = [
     "c12_coef_order",         # local: + the same form with its coefficients/arguments created in another order
     "demo_BiharmonicHHJ",     # a demo
 ]
+# Regression detectors ("armed" check): these jobs run with the F9 fixes reverted IN THE WORKER PROCESS ONLY
+# (monkeypatch, see _apply_reverts) and must make the search report exactly these kinds of difference.
+#   (entry, lang, history, PYTHONHASHSEED)
+SELFTEST_JOBS = [
+    ("laplace_coef_tri_p2", "C", "fresh", 0), ("laplace_coef_tri_p2", "C", "fresh", 1),
+    ("laplace_coef_tri_p2", "C", "unrelated", 0),
+    ("int_facet_tri", "C", "fresh", 0), ("int_facet_tri", "C", "fresh", 1),
+    ("c12_mixed_dim_geometry", "C", "fresh", 0), ("c12_mixed_dim_geometry", "C", "fresh", 2),
+]
+ARMED_KEYS = ["hashseed:section-inputs-comment-order", "hashseed:section-outputs-comment-order",
+              "hashseed:FE-table-numbering", "hashseed:geometry-table-order", "history:J-symbol-ufl_id"]
 VARIANT_ENTRIES = ("c12_index_order", "c12_coef_order")
 OTHER_FORMS_FIRST = ["ext_facet_quad", "stokes_mixed", "expr_tensor"]   # compiled before the target in `others-first`
 
@@ -231,6 +241,37 @@ def _unrelated_objects():
     return keep
 
 
+def _apply_reverts():
+    """Self-test only: put the pre-fix behaviour of the five repaired sites back, in THIS process (nothing in
+    /repo is touched).  `dict.fromkeys` de-duplication -> set order; `sorted(cell_list)` -> set order;
+    per-kernel domain number -> ufl_id()."""
+    import builtins
+
+    import ufl
+    import ffcx.codegeneration.expression_generator as eg
+    import ffcx.codegeneration.integral_generator as ig
+    import ffcx.codegeneration.lnodes as L
+    import ffcx.codegeneration.optimizer as opt
+    import ffcx.codegeneration.symbols as sym
+    import ffcx.ir.elementtables as et
+
+    class _SetOrderDict(dict):
+        @classmethod
+        def fromkeys(cls, it, value=None):
+            return dict.fromkeys(set(it), value)
+
+    def _sorted(x, *a, **k):
+        return list(x) if isinstance(x, (set, frozenset)) else builtins.sorted(x, *a, **k)
+
+    opt.dict = ig.dict = et.dict = _SetOrderDict
+    ig.sorted = eg.sorted = _sorted
+
+    def J_component(self, mt):
+        return L.Symbol(sym.format_mt_name(f"J{ufl.domain.extract_unique_domain(mt.expr).ufl_id()}", mt),
+                        dtype=L.DataType.REAL)
+    sym.FFCXBackendSymbols.J_component = J_component
+
+
 def _text_of(code):
     return "\n/*=== file boundary ===*/\n".join(code)
 
@@ -250,6 +291,8 @@ def worker(job):
     import ffcx.compiler  # noqa
     import ffcx.options  # noqa
     from harness import corpus  # noqa
+    if job.get("revert"):
+        _apply_reverts()
     entries = _all_entries(job.get("gen_seed", 0), job.get("gen_n", 0))
     e = entries[job["entry"]]
     hist = job["hist"]
@@ -518,7 +561,8 @@ def _run_job(job, seed, scratch, timeout=900):
 def plan(tier, seed):
     """(entry names, jobs). A job = ({entry, lang, hist, ...}, PYTHONHASHSEED).
 
-    quick:    QUICK_ENTRIES; C: fresh with seeds 0..3, the four histories with seeds 0,1; numba: fresh 0,1, histories 0.
+    quick:    QUICK_ENTRIES; C: fresh with seeds 0,1,2 and the histories unrelated / others-first /
+              other-options-first with seed 0; numba: fresh with seeds 0,1 (+ 5 self-test jobs, see SELFTEST_JOBS).
     thorough: every corpus entry + 16 generated forms (VERIF_SEED); C: fresh with seeds 0..31 (demos 0..7), histories
               with seeds 0,1 (demos 0); numba: fresh 0..3 (demos 0,1), histories with seed 0 (not for demos).
     `twice` (compile the same objects a second time in the same process) rides on every fresh job.
@@ -528,11 +572,12 @@ def plan(tier, seed):
     if tier == "quick":
         names = list(QUICK_ENTRIES)
         gen = (0, 0)
+        hists = hists[:3]
 
         def seeds(nm, lang, fresh):
             if lang == "C":
-                return [0, 1, 2, 3] if fresh else [0, 1]
-            return [0, 1] if fresh else [0]
+                return [0, 1, 2] if fresh else [0]
+            return [0, 1] if fresh else []
     else:
         gen = (seed, 16)
         names = list(_all_entries(*gen).keys())
@@ -563,6 +608,8 @@ def differential(chk, tier, seed, only=None):
         if only:
             jobs = [(j, s) for j, s in jobs if j["entry"] in only]
             names = [n for n in names if n in only]
+        st_jobs = [] if only else [({"entry": e_, "lang": l_, "hist": h_, "revert": True}, s_) for e_, l_, h_, s_ in SELFTEST_JOBS]
+        jobs = jobs + st_jobs
         for j, _ in jobs:
             j["outdir"] = str(scratch / "out")
         # longest first (demos / mixed) so the pool drains evenly
@@ -576,9 +623,39 @@ def differential(chk, tier, seed, only=None):
             raise RuntimeError(f"{len(crashed)} worker process(es) died before reporting, after 3 attempts "
                                f"(infrastructure, not a C12 observation); first: {crashed[0]['job']} seed {crashed[0]['seed']}: "
                                f"{crashed[0]['crash'][-800:]}")
-        _compare(chk, names, results, scratch / "out")
+        _selftest(chk, [r for r in results if r["job"].get("revert")], scratch / "out")
+        _compare(chk, names, [r for r in results if not r["job"].get("revert")], scratch / "out")
     finally:
         shutil.rmtree(scratch, ignore_errors=True)
+
+
+def _selftest(chk, results, outdir):
+    """The five regression detectors must fire on the reverted code (otherwise a regression would go unseen)."""
+    if not results:
+        return
+    by = {}
+    for r in results:
+        j = r["job"]
+        for x in r["results"]:
+            if x["label"] != "twice":
+                by[(j["entry"], j["lang"], r["seed"], x["label"])] = x["sha"]
+    seen = set()
+    for (entry, lang, s, label), sha in sorted(by.items()):
+        if (s, label) == (0, "fresh"):
+            continue
+        base = by.get((entry, lang, 0, "fresh")) if label == "fresh" else by.get((entry, lang, s, "fresh"))
+        if base is None or base == sha:
+            continue
+        dim = "hashseed" if label == "fresh" else "history"
+        for kind, _ex in classify((outdir / f"{base}.txt").read_text(), (outdir / f"{sha}.txt").read_text()):
+            seen.add(f"{dim}:{kind}")
+    chk.case(kind="selftest-reverted-fixes", key="|".join(sorted(seen)), n=len(results))
+    chk.notes["selftest_detected_on_reverted_code"] = sorted(seen)
+    missing = [k for k in ARMED_KEYS if k not in seen]
+    if missing or set(seen) - set(ARMED_KEYS):
+        chk.disagree("regression detectors on the worker with the F9 fixes reverted (monkeypatch)",
+                     {"expected": ARMED_KEYS, "detected": sorted(seen), "not_detected": missing,
+                      "errors": [r.get("error") for r in results if r.get("error")]})
 
 
 def _compare(chk, names, results, outdir):
@@ -632,13 +709,14 @@ def _compare(chk, names, results, outdir):
                               what=f"ffcx.naming.compute_signature of {entry} differs between runs: {bad[:6]}",
                               payload={"entry": entry, "lang": lang, "runs": bad})
         expo = exposure(text(ref)) if isinstance(ref, str) else {}
-        # model <-> code: the J symbols in the text carry exactly the ufl_id()s of the meshes
+        # model <-> code: the J symbols in the text are numbered 0..n-1 per kernel (n <= number of meshes)
         if isinstance(ref, str) and (((entry, lang), 0, "fresh") in meshids):
             jids = sorted({int(x) for x in re.findall(r"\bJ(\d+)_", text(ref))})
+            nmesh = len(meshids[((entry, lang), 0, "fresh")])
             chk.case(kind="correspondence-J-symbol-in-text", key=f"{entry}/{lang}" if jids else None)
-            if not set(jids) <= set(meshids[((entry, lang), 0, "fresh")]):
-                chk.disagree("J<k> symbols in the text are the ufl_id()s of the form's meshes",
-                             {"entry": entry, "model": meshids[((entry, lang), 0, "fresh")], "impl": jids})
+            if jids != list(range(len(jids))) or len(jids) > nmesh:
+                chk.disagree("J<n> symbols in the text are numbered 0..n-1 with n <= number of meshes of the objects",
+                             {"entry": entry, "model": f"0..{nmesh - 1}", "impl": jids})
         nontrivial = bool(expo) and (expo["multi_io_comments"] > 0 or expo["fe_numbers"] > 1 or expo["J_ids"] > 0)
         for (s, label), v in sorted(rr.items()):
             if (s, label) == ref_key:
@@ -704,6 +782,7 @@ def correspondence(chk):
     compare with the real ufl/ffcx functions they transcribe."""
     import random
 
+    import ufl
     import ufl.algorithms
     import ffcx.codegeneration.lnodes as L
     from ffcx.codegeneration.C.formatter import Formatter
@@ -738,8 +817,25 @@ def correspondence(chk):
         impl = [e.n for e in ufl.algorithms.sort_elements([es[i] for i in order])]
         subs = "fun e => match e with " + " ".join(
             f"| {e.n} => {_lean_list([x.n for x in e.sub_elements])}" for e in es if e.sub_elements) + " | _ => []"
-        lines.append(f"#eval IO.println (repr (sortElements ({subs}) {_lean_list(order)}))")
+        lines.append(f"#eval IO.println (toString (sortElements ({subs}) {_lean_list(order)}))")
         expect.append(("sort_elements", {"subs": {e.n: [x.n for x in e.sub_elements] for e in es}, "order": order},
+                       "[" + ", ".join(map(str, impl)) + "]"))
+    # (1b) build_optimized_tables' numbering pipeline: sort_elements(list(dict.fromkeys(extract_sub_elements(all))))
+    import ufl.algorithms.analysis as ufl_analysis
+    for _ in range(ncase // 2):
+        n = rng.randrange(2, 8)
+        es = [E(i) for i in range(n)]
+        for i in range(n):
+            if i and rng.random() < 0.5:
+                es[i].sub_elements = [es[j] for j in rng.sample(range(i), rng.randrange(1, min(i, 3) + 1))]
+        allel = [es[rng.randrange(n)] for _ in range(rng.randrange(1, 7))]      # elements of the modified terminals
+        elems = list(ufl_analysis.extract_sub_elements(allel))
+        impl = [e.n for e in ufl.algorithms.sort_elements(list(dict.fromkeys(elems)))]
+        subs = "fun e => match e with " + " ".join(
+            f"| {e.n} => {_lean_list([x.n for x in e.sub_elements])}" for e in es if e.sub_elements) + " | _ => []"
+        lines.append(f"#eval IO.println (toString (sortElements ({subs}) (dedupFirst {_lean_list([e.n for e in elems])})))")
+        expect.append(("table-numbering-pipeline", {"subs": {e.n: [x.n for x in e.sub_elements] for e in es},
+                                                    "elems": [e.n for e in elems]},
                        "[" + ", ".join(map(str, impl)) + "]"))
     # (2) Section.__init__ output completion + the C formatter's Inputs/Outputs comments
     fmt = Formatter("float64")
@@ -753,33 +849,38 @@ def correspondence(chk):
         txt = fmt(sec).split("\n")
         impl_in = next(l for l in txt if l.startswith("// Inputs:")).rstrip()
         impl_out = next(l for l in txt if l.startswith("// Outputs:")).rstrip()
-        lines.append(f"#eval IO.println (site_fuse_inputs {_lean_strs(inp)})")
+        lines.append(f"#eval IO.println (inputsComment {_lean_strs(inp)})")
         expect.append(("inputs-comment", {"input": inp}, impl_in))
-        lines.append(f"#eval IO.println (site_fuse_outputs {_lean_strs(decls)} {_lean_strs(out)})")
+        lines.append(f"#eval IO.println (outputsComment (sectionOutput {_lean_strs(out)} {_lean_strs(decls)}))")
         expect.append(("outputs-comment", {"output": out, "decls": decls}, impl_out))
-    # (3) fuse_sections: the real input/output lists are SOME iteration order of the set; the model applied to
-    #     that order gives the real comment
-    nonperm = None
+    # (3) fuse_sections: the comments of the fused section are the model's function of the concatenated lists
     for _ in range(ncase // 2):
         secs = []
-        allin, allout = [], []
+        allin, allout, alldecl = [], [], []
         for _k in range(rng.randrange(1, 4)):
             inp = [rng.choice(pool) for _ in range(rng.randrange(0, 4))]
             out = [rng.choice(pool) for _ in range(rng.randrange(0, 3))]
-            allin += inp
-            allout += out
-            secs.append(L.Section("Coefficient", [], [], [L.Symbol(x, L.DataType.SCALAR) for x in inp],
-                                  [L.Symbol(x, L.DataType.SCALAR) for x in out]))
+            dcl = [rng.choice(pool) for _ in range(rng.randrange(0, 2))]
+            sec = L.Section("Coefficient", [], [L.VariableDecl(L.Symbol(d, L.DataType.SCALAR), 0) for d in dcl],
+                            [L.Symbol(x, L.DataType.SCALAR) for x in inp], [L.Symbol(x, L.DataType.SCALAR) for x in out])
+            allin += [x.name for x in sec.input]
+            allout += [x.name for x in sec.output]      # Section.__init__ already appended its declared symbols
+            alldecl += dcl
+            secs.append(sec)
         fused = fuse_sections(list(secs), "Coefficient")[0]
-        got_in, got_out = [x.name for x in fused.input], [x.name for x in fused.output]
-        if len(set(got_in)) != len(got_in) or set(got_in) != set(allin) or len(set(got_out)) != len(got_out) or set(got_out) != set(allout):
-            nonperm = {"inputs": allin, "impl": got_in, "outputs": allout, "impl_out": got_out}
         txt = fmt(fused).split("\n")
-        lines.append(f"#eval IO.println (site_fuse_inputs {_lean_strs(got_in)})")
-        expect.append(("fuse_sections-inputs", {"order": got_in}, next(l for l in txt if l.startswith("// Inputs:")).rstrip()))
-    chk.case(kind="correspondence-fuse_sections-is-set-iteration", key=f"seed{chk.seed}", n=ncase // 2)
-    if nonperm:
-        chk.disagree("fuse_sections input/output is an iteration order of the set of symbols (IsSetIter)", nonperm)
+        lines.append(f"#eval IO.println (site_fuse_inputs {_lean_strs(allin)})")
+        expect.append(("fuse_sections-inputs", {"inputs": allin}, next(l for l in txt if l.startswith("// Inputs:")).rstrip()))
+        lines.append(f"#eval IO.println (site_fuse_outputs {_lean_strs(alldecl)} {_lean_strs(allout)})")
+        expect.append(("fuse_sections-outputs", {"outputs": allout, "decls": alldecl},
+                       next(l for l in txt if l.startswith("// Outputs:")).rstrip()))
+    # (3b) sorted(cell names) -> geometry table names
+    cells = ["interval", "triangle", "quadrilateral", "tetrahedron", "hexahedron", "prism", "pyramid", "point"]
+    for _ in range(ncase // 4):
+        it = rng.sample(cells, rng.randrange(1, 5))
+        lines.append(f'#eval IO.println (toString (site_geometry_tables "reference_cell_volume" {_lean_strs(it)}))')
+        expect.append(("geometry-tables", {"cells": it},
+                       "[" + ", ".join(f"{c}_reference_cell_volume" for c in sorted(set(it))) + "]"))
     # (4) temp symbol counters of a fresh generator instance
     class _IR:
         class expression:
@@ -788,14 +889,31 @@ def correspondence(chk):
         reqs = [rng.choice(["fw", "temp_", "sv"]) for _ in range(rng.randrange(1, 8))]
         g = IntegralGenerator(_IR, None)
         impl = [g.new_temp_symbol(b).name for b in reqs]
-        lines.append(f"#eval IO.println (repr (genTemps GenState.fresh {_lean_strs(reqs)}))")
-        expect.append(("temp-symbols", {"requests": reqs}, "[" + ", ".join('"' + x + '"' for x in impl) + "]"))
-    # (5) J symbol: name = "J" ++ ufl_id ++ restriction ++ component
-    for k, r, c in [(0, None, 0), (3, None, 2), (12, False, 1), (7, True, 3)]:
-        rs = {None: "none", False: "(some false)", True: "(some true)"}[r]
-        lines.append(f"#eval IO.println (site_jacobian_symbol {rs} {c} {k})")
-        expect.append(("J-symbol", {"ufl_id": k, "restriction": r, "component": c},
-                       f"J{k}" + {None: "", False: "_r0", True: "_r1"}[r] + f"_c{c}"))
+        lines.append(f"#eval IO.println (toString (genTemps GenState.fresh {_lean_strs(reqs)}))")
+        expect.append(("temp-symbols", {"requests": reqs}, "[" + ", ".join(impl) + "]"))
+    # (5) J symbol: the real FFCXBackendSymbols.J_component on meshes with arbitrary ufl_id()s, in arbitrary call order
+    import types
+
+    import basix.ufl
+    from ffcx.codegeneration.symbols import FFCXBackendSymbols
+    for _ in range(max(4, ncase // 8)):
+        nm = rng.randrange(1, 4)
+        meshes = [ufl.Mesh(basix.ufl.element("P", "triangle", 1, shape=(2,))) for _ in range(nm)]
+        _skip = [ufl.Mesh(basix.ufl.element("P", "interval", 1, shape=(1,))) for _ in range(rng.randrange(0, 3))]
+        sy = FFCXBackendSymbols({}, {}, {})
+        uses = []
+        for _c in range(rng.randrange(1, 6)):
+            m = rng.choice(meshes)
+            r = rng.choice([None, "+", "-"])
+            comp = rng.randrange(0, 4)
+            mt = types.SimpleNamespace(expr=ufl.Jacobian(m), terminal=ufl.Jacobian(m), averaged=None, restriction=r,
+                                       global_derivatives=(), local_derivatives=(), component=(comp // 2, comp % 2),
+                                       flat_component=comp)
+            impl = sy.J_component(mt).name
+            uses.append(m.ufl_id())
+            rs = {None: "none", "+": "(some false)", "-": "(some true)"}[r]
+            lines.append(f"#eval IO.println (site_jacobian_symbol {rs} {comp} {_lean_list(uses)} {m.ufl_id()})")
+            expect.append(("J-symbol", {"uses": list(uses), "domain": m.ufl_id(), "restriction": r, "component": comp}, impl))
 
     src = leanmod.LEAN / f".c12_corr_{os.getpid()}.lean"
     src.write_text("\n".join(lines) + "\n")
